@@ -34,6 +34,7 @@ import (
 
 	"github.com/thanos-io/thanos/pkg/block"
 	"github.com/thanos-io/thanos/pkg/block/metadata"
+	"github.com/thanos-io/thanos/pkg/compact/downsample"
 	"github.com/thanos-io/thanos/pkg/component"
 	"github.com/thanos-io/thanos/pkg/store"
 	"github.com/thanos-io/thanos/pkg/store/storepb"
@@ -58,7 +59,7 @@ type Block struct {
 	Ext        map[string]string // external labels recorded in meta.json (Thanos.Labels)
 	Series     []Series
 	ChunkRange int64 // chunks are cut at multiples of ChunkRange (ms); 0 = 2h
-	Resolution int64 // Thanos.Downsample.Resolution; 0 = raw
+	Resolution int64 // 0 = raw block; > 0: the block is downsampled to this resolution (ms) with thanos' downsampler
 }
 
 // Head is the local-TSDB part of a world (what a receiver / ruler / sidecar-less store serves).
@@ -121,12 +122,29 @@ func UploadBlocks(ctx context.Context, bkt objstore.Bucket, scratch string, bloc
 		}
 		meta, err := metadata.InjectThanos(log.NewNopLogger(), bdir, metadata.Thanos{
 			Labels:     ext,
-			Downsample: metadata.ThanosDownsample{Resolution: b.Resolution},
+			Downsample: metadata.ThanosDownsample{Resolution: 0},
 			Source:     metadata.TestSource,
 			IndexStats: metadata.IndexStats{SeriesMaxSize: 1 << 10, ChunkMaxSize: 1 << 12},
 		}, nil)
 		if err != nil {
 			return nil, err
+		}
+		if b.Resolution > 0 {
+			// a really downsampled block (aggregate chunks) made by thanos' own downsampler from the
+			// raw block; only the downsampled one is uploaded
+			blk, err := tsdb.OpenBlock(discard(), bdir, chunkenc.NewPool(), tsdb.DefaultPostingsDecoderFactory)
+			if err != nil {
+				return nil, fmt.Errorf("open block %d: %w", i, err)
+			}
+			id, err := downsample.Downsample(ctx, log.NewNopLogger(), meta, blk, dir, b.Resolution)
+			_ = blk.Close()
+			if err != nil {
+				return nil, fmt.Errorf("downsample block %d: %w", i, err)
+			}
+			bdir = filepath.Join(dir, id.String())
+			if meta, err = metadata.ReadFromDir(bdir); err != nil {
+				return nil, err
+			}
 		}
 		if err := block.Upload(ctx, log.NewNopLogger(), bkt, bdir, metadata.NoneFunc); err != nil {
 			return nil, fmt.Errorf("upload block %d: %w", i, err)
